@@ -16,7 +16,7 @@ def run(r):
     # StaticCheck / Transform / Evaluate: every assignment of node kinds and interpreter capabilities, every injected failure
     res.append(pure.model_to_code(r, "TreePassMC", cfg(4 if th else 3, True, "NoList", "NoStop"), "treepass", "labelled"))
     rnd = pure.code_to_model(r, "treepass", "TreePassTrace", "TreePassTrace.cfg", 8 if th else 2,
-                             dict(n=60 if th else 30, maxnodes=200 if th else 80), lambda x: True,
+                             dict(n=40 if th else 30, maxnodes=140 if th else 80), lambda x: True,
                              describe=lambda rows: {k: rows[0][k] for k in ("list", "stopK", "failAt", "walk")})
     r.extra["replay"] = [{k: v for k, v in x.items() if k not in ("mismatches", "samples")} for x in res]
     r.extra["random"] = rnd
@@ -25,7 +25,7 @@ def run(r):
     r.rule = ("model->code: the Walk machine over every tree shape (with and without an alternative list at the root, stop at every visit) and the "
               "recursive definitions of StaticCheck / Transform / Evaluate over every labelling (terminal, Empty, childless and inner non-terminals with "
               "plain / checker / transformer / both interpreters, failure injected at every node) exported by TLC and replayed on real ast nodes with "
-              "recording interpreters; code->model: random trees up to 200 nodes judged by TreePassTrace. distinct_nontrivial = trees with more than 2 nodes")
+              "recording interpreters; code->model: random trees up to 140 nodes judged by TreePassTrace. distinct_nontrivial = trees with more than 2 nodes")
     r.assumptions = ["Transform / Evaluate are exercised on single trees (a NodeList root is not Transformable and has no value in the code)",
                      "checker schemas are strings built from the children's recorded schemas, so 'children final' is observable"]
 
